@@ -25,7 +25,11 @@ the same NAK, `C03_nak_expiries` by induction over the expiry times) and
 `C03_end_to_end_retransmission_lost` (the retransmission is lost again; the sender answers the
 re-issued NAK from its retransmission step); `C03_end_to_end_single_loss_immediate` (IMMEDIATE NAK
 mode: the gap is requested with the tile that reveals it, the sender answers in the middle of its
-stream and resumes — the PDUs of the disturbed run are exactly those of the undisturbed one, C08).
+stream and resumes — the PDUs of the disturbed run are exactly those of the undisturbed one, C08);
+`C03_end_to_end_metadata_loss` (the METADATA PDU is lost: the transaction starts without a destination,
+nothing is stored, one NAK requests the Metadata and the whole file, the sender answers with exactly the
+original Metadata PDU and tiles, the receiver creates the destination, stores them — each shrinking the
+lost range from its head —, verifies and completes).
 The building blocks are stated from states, not from
 runs (`C03_prefix_single_loss`, `C03_recovery_from_waiting`, `C03_closing*`), so they compose.
 Proved as whole-run theorems about the receiver model: `C03_single_loss_recovery` (any one File Data PDU but the last never arrives: exactly one NAK
@@ -1428,7 +1432,8 @@ theorem C03_sender_run_to_eof (envS : Source.Env) (s : Source.SrcSt)
       SentAllS s3 req src F seg conf rcS tid ∧ s3.step = .WAITING_FOR_EOF_ACK ∧
       s3.p.ackTimer = some ⟨envS.now, rcS.ackMs⟩ ∧ s3.p.ackCounter = 0 ∧ s3.p.fileSize = F.length ∧
       s3.p.metadataOnly = false ∧ s3.p.condCodeEof = some ccNoError ∧ s3.p.checkTimer = none ∧
-      s3.fs = s.fs ∧ s3.flts = s.flts ∧ s3.inds.filter isFinished = s.inds.filter isFinished := by
+      s3.fs = s.fs ∧ s3.flts = s.flts ∧ s3.inds.filter isFinished = s.inds.filter isFinished ∧
+      s3.p.closure = s.p.closure := by
   intro conf tid
   have hk1 : 1 ≤ k := by
     rcases Nat.eq_zero_or_pos k with h0 | h0
@@ -1465,7 +1470,7 @@ theorem C03_sender_run_to_eof (envS : Source.Env) (s : Source.SrcSt)
     rw [rounds_add envS (1 + k) 1 s, rounds_add envS 1 k s]
     simp only [rounds, round, hcall1, hr2, hcall3]
     simp [Source.C07.drained, afterMetadata, afterEofS, hprog, hc2, conf, s3, condS]
-  refine ⟨s3, hrun, ?_, rfl, rfl, rfl, ?_, ?_, rfl, ?_, ?_, ?_, ?_⟩
+  refine ⟨s3, hrun, ?_, rfl, rfl, rfl, ?_, ?_, rfl, ?_, ?_, ?_, ?_, ?_⟩
   · exact
       { hbusy := hS2.hbusy, hqueue := rfl, hreq := hS2.hreq, hsrc := hS2.hsrc, hfile := hS2.hfile,
         hseg := by show s2.p.segmentLen = seg; rw [hsg2]; simp [Source.C07.drained, afterMetadata],
@@ -1479,6 +1484,8 @@ theorem C03_sender_run_to_eof (envS : Source.Env) (s : Source.SrcSt)
   · simp [Source.C07.drained, afterEofS, condS, f5, afterMetadata, s3]
   · simp only [Source.C07.drained, afterEofS, condS, s3, f4, afterMetadata, List.filter_append]
     cases envS.cfg.indEofSent <;> simp [isFinished]
+  · show s2.p.closure = s.p.closure
+    rw [f3]; simp [Source.C07.drained, afterMetadata]
 
 /-- the receiver takes Metadata and all tiles: everything is stored -/
 theorem C03_receiver_takes_all_data (envD : Dest.Env) (d0 : DestSt) (conf : Hdr) (rcD : RemoteCfg) (closure : Bool)
@@ -1573,7 +1580,7 @@ theorem C03_end_to_end_ack_eof_loss (envS : Source.Env) (envD : Dest.Env) (s : S
   intro conf cd fpOk
   have hsrcv : conf.src.val = envS.cfg.entityId.val := by simp [conf, startConf]
   have hdstv : conf.dst.val = rcS.entityId.val := by simp [conf, startConf, hrcid]
-  obtain ⟨s3, hrun, hS3, hstep3, -, -, -, -, -, -, hfs3, hfl3, hin3⟩ :=
+  obtain ⟨s3, hrun, hS3, hstep3, -, -, -, -, -, -, hfs3, hfl3, hin3, -⟩ :=
     C03_sender_run_to_eof envS s req rcS src dst F crc seg k hst hstep hq hreq hpmo hsrc hdst hfile hF hprog hrc
       hbits hseg hseg0 hmode hct hk hcks hnull hlen hack
   obtain ⟨d2, hfeed2, hR2, hother2, hfin2⟩ := C03_receiver_takes_all_data envD d0 conf rcD s.p.closure rcS.cks src dst
@@ -1694,7 +1701,7 @@ theorem C03_end_to_end_eof_loss (envS : Source.Env) (envD : Dest.Env) (s : Sourc
   intro conf cd fpOk eof
   have hsrcv : conf.src.val = envS.cfg.entityId.val := by simp [conf, startConf]
   have hdstv : conf.dst.val = rcS.entityId.val := by simp [conf, startConf, hrcid]
-  obtain ⟨s3, hrun, hS3, hstep3, htm3, hcnt3, hsz3, hmo3, hcond3, hct3, hfs3, hfl3, hin3⟩ :=
+  obtain ⟨s3, hrun, hS3, hstep3, htm3, hcnt3, hsz3, hmo3, hcond3, hct3, hfs3, hfl3, hin3, -⟩ :=
     C03_sender_run_to_eof envS s req rcS src dst F crc seg k hst hstep hq hreq hpmo hsrc hdst hfile hF hprog hrc
       hbits hseg hseg0 hmode hct hk hcks hnull hlen hack
   obtain ⟨d2, hfeed2, hR2, hother2, hfin2⟩ := C03_receiver_takes_all_data envD d0 conf rcD s.p.closure rcS.cks src dst
@@ -3047,6 +3054,692 @@ theorem C03_end_to_end_single_loss_immediate (envS : Source.Env) (envD : Dest.En
     cases envD.cfg.indSegRecv <;> simp [isFinished, fpOk]
 
 
+/-! ## The Metadata PDU is lost -/
+
+/-- the chunks with which the sender serves a request for the rest of the file are the original tiles -/
+theorem chunkPdus_eq_tiles (conf : Hdr) (F : List UInt8) (seg : Nat) (hseg : 0 < seg) :
+    ∀ (k cur missing fuel : Nat), missing ≤ fuel → cur + missing = F.length →
+      ((k = 0 ∧ missing = 0) ∨ ((k - 1) * seg < missing ∧ missing ≤ k * seg)) →
+      Source.C08.chunkPdus conf F seg fuel cur missing = (List.range k).map (Source.C07.tile conf F seg cur) := by
+  intro k
+  induction k with
+  | zero =>
+    intro cur missing fuel _ _ hk
+    have hm : missing = 0 := by
+      rcases hk with h | h
+      · exact h.2
+      · omega
+    subst hm
+    cases fuel <;> simp [Source.C08.chunkPdus]
+  | succ k ih =>
+    intro cur missing fuel hf hcm hk
+    have hk' : k * seg < missing ∧ missing ≤ (k + 1) * seg := by
+      rcases hk with h | h
+      · omega
+      · simpa using h
+    have hmpos : 0 < missing := by omega
+    obtain ⟨f, rfl⟩ : ∃ f, fuel = f + 1 := ⟨fuel - 1, by omega⟩
+    have hlen : (F.drop cur).length = missing := by simp [List.length_drop]; omega
+    have htake : (F.drop cur).take (min missing seg) = (F.drop cur).take seg := by
+      rw [← hlen, Nat.min_comm]; exact Source.C07.take_min_length _ _
+    rw [range_succ_map]
+    have ht0 : Source.C07.tile conf F seg cur 0 = Source.mkFd conf cur ((F.drop cur).take seg) := by
+      simp [Source.C07.tile]
+    simp only [Source.C08.chunkPdus, hmpos, if_true, gt_iff_lt, List.map_cons, ht0, htake, tile_shift]
+    congr 1
+    by_cases hle : missing ≤ seg
+    · have hk0 : k = 0 := by
+        rcases Nat.eq_zero_or_pos k with h0 | h0
+        · exact h0
+        · have : seg ≤ k * seg := Nat.le_mul_of_pos_left _ h0
+          omega
+      subst hk0
+      have : min missing seg = missing := by omega
+      rw [this, Nat.sub_self]
+      cases f <;> simp [Source.C08.chunkPdus]
+    · have hmin : min missing seg = seg := by omega
+      rw [hmin]
+      have e : (k + 1) * seg = k * seg + seg := by rw [Nat.add_mul, Nat.one_mul]
+      apply ih (cur + seg) (missing - seg) f (by omega) (by omega)
+      right
+      constructor
+      · rcases Nat.eq_zero_or_pos k with h0 | h0
+        · subst h0; simp; omega
+        · have hkk : k = (k - 1) + 1 := by omega
+          have : k * seg = (k - 1) * seg + seg := by rw [hkk]; simp [Nat.add_mul]
+          omega
+      · omega
+
+/-- **NAK for the Metadata and the whole file at the sender** (it waits for the Finished PDU): the
+answer is exactly the original Metadata PDU followed by exactly the original tiles -/
+theorem C03_sender_serves_metadata_and_file (env : Source.Env) (s : Source.SrcSt) (rc : RemoteCfg) (h : Hdr)
+    (req : Source.PutReq) (src dst : String) (F : List UInt8) (seg k sos eos : Nat) (conf : Hdr) (tid : Tid)
+    (ha : AdmissibleS env s rc h) (hW : WaitingFinS s req src F seg conf rc tid) (hdst : req.dst = some dst)
+    (hsize : s.p.fileSize = F.length) (hseg0 : 0 < seg)
+    (hk : (k - 1) * seg < F.length ∧ F.length ≤ k * seg) (hF : F ≠ []) :
+    Source.stateMachine env (some (.nak h sos eos [(0, 0), (0, F.length)])) s =
+      .ok () (retransS s
+        ([Source.mkMd conf s.p.closure rc.cks F.length (some src) (some dst) (some (req.msgs.getD []))] ++
+          (List.range k).map (Source.C07.tile conf F seg 0))) := by
+  have hlen : 0 < F.length := by
+    cases F with
+    | nil => exact absurd rfl hF
+    | cons _ _ => simp
+  have hmo : req.metadataOnly = false := by simp [Source.PutReq.metadataOnly, hW.hsrc]
+  obtain ⟨st, stp, nr, p, sb, pr, q, fs, fl, pv, ind, flt⟩ := s
+  have h1 := ha.hrc; have h2 := ha.hseq; have h3 := ha.hmode
+  have w1 := hW.hbusy; have w2 := hW.hstep; have w3 := hW.hqueue; have w4 := hW.hreq; have w5 := hW.hfile
+  have w6 := hW.hseg; have w7 := hW.hprog; have w8 := hW.hconf; have w9 := hW.hrc
+  simp only at h1 h2 h3 w1 w2 w3 w4 w5 w6 w7 w8 w9 hsize
+  subst w1 w2 w3 w4
+  let md := Source.mkMd conf p.closure rc.cks F.length (some src) (some dst) (some (req.msgs.getD []))
+  -- the Metadata request
+  have hmd : Source.handleSegmentReq (0, 0)
+      (⟨.busy, .WAITING_FOR_FINISHED, nr, p, sb, some req, [], fs, fl, pv, ind, flt⟩ : Source.SrcSt) =
+      .ok () (⟨.busy, .WAITING_FOR_FINISHED, nr + 1, p, sb, some req, [md], fs, fl, pv, ind, flt⟩ : Source.SrcSt) := by
+    rw [Source.C08.C08_metadata_request]
+    msimp [Source.prepareMetadataPdu, hmo, w9, hW.hsrc, hdst, Source.addPacket, w8, hsize, md]
+  -- the file request, on the state after the Metadata request
+  have hfile := Source.C08.C08_valid_request_served
+    (⟨.busy, .WAITING_FOR_FINISHED, nr + 1, p, sb, some req, [md], fs, fl, pv, ind, flt⟩ : Source.SrcSt)
+    req src F 0 F.length rfl hW.hsrc w5 (by show 0 < p.segmentLen; rw [w6]; exact hseg0) (by omega)
+    (Nat.zero_le _) (by show F.length ≤ p.progress; rw [w7])
+  have hchunks := chunkPdus_eq_tiles conf F seg hseg0 k 0 F.length F.length (Nat.le_refl _) (by omega) (Or.inr hk)
+  simp only [Nat.sub_zero, w6, w8, hchunks] at hfile
+  msimp [Source.stateMachine, Source.checkInsertedPacket, Pdu.hdr, ha.hdir, ha.hsrc, h1, ha.hdst, h2,
+    Pdu.kind, Route.getPacketDestination, h3, Source.fsmNonIdle,
+    Source.fsmAdvancementAfterPacketsWereSent, Source.fsmFromSendingFileData,
+    Source.fsmFromSendingEof, Source.fsmFromWaitingForEofAck,
+    Source.fsmFromWaitingForFinished, Source.handleWaitForFinish, Source.transmissionMode,
+    Source.handleRetransmission, Source.handleSegmentReqs, hmd, hfile, Source.modP, Source.getP, Source.addPacket,
+    Source.fsmFromNoticeOfCompletion, retransS, md]
+  omega
+
+/-! ### the receiver without Metadata -/
+
+theorem fs_set_set (fs : Fs) (p : String) (x y : Node) : (fs.set p x).set p y = fs.set p y := by
+  induction fs with
+  | nil => simp [Fs.set]
+  | cons e t ih =>
+    obtain ⟨q, m⟩ := e
+    simp only [Fs.set]
+    by_cases h1 : p < q
+    · simp [h1, Fs.set]
+    · by_cases h2 : p = q
+      · subst h2; simp [Fs.set]
+      · simp [h1, h2, Fs.set, ih]
+
+/-- parameter block of a transaction that was started by a File Data PDU: Metadata missing, `m` bytes
+"received" (none stored: there is no file yet), everything up to `m` recorded as lost -/
+def noMdParams (h : Hdr) (rc : RemoteCfg) (m : Nat) : Params :=
+  { conf := { h with dir := .toSend }, tid := some ⟨h.src, h.seq⟩, remoteCfg := some rc, metadataMissing := true,
+    progress := m, trk := [(0, m)], lastStart := m, lastEnd := m }
+
+def noMdSt (d0 : DestSt) (h : Hdr) (rc : RemoteCfg) (m : Nat) : DestSt :=
+  { d0 with state := .busy, step := .WAITING_FOR_METADATA, p := noMdParams h rc m }
+
+/-- **The first PDU is a File Data PDU** (the Metadata was lost; acknowledged mode, deferred NAK
+mode): the transaction starts without Metadata; nothing is stored (there is no destination yet),
+nothing is queued; everything up to the end of this PDU is recorded as missing -/
+theorem C03_first_fd_without_metadata (env : Env) (d0 : DestSt) (h : Hdr) (rc : RemoteCfg) (off : Nat)
+    (data : List UInt8) (ha : AdmissibleA env rc h) (himm : rc.imm = false) (hd : data ≠ [])
+    (hidle : d0.state = .idle) (hq : d0.queue = []) (hr : d0.numReady = 0) :
+    stateMachine env (some (.fd h off data)) d0 = .ok () (noMdSt d0 h rc (off + data.length)) := by
+  have hlen : 0 < data.length := by cases data <;> simp_all
+  have hne : ¬ data.length = 0 := by omega
+  msimp [stateMachine, stateMachineWith, checkInsertedPacket, Pdu.hdr, ha.hdir, ha.hdst, ha.hsrc, Pdu.kind,
+    Route.getPacketDestination, hidle, handleFirstPacketNotMetadataPdu, transmissionMode, ha.hmode,
+    idleFsm, commonFirstPacketNotMetadataPduHandler, commonFirstPacketHandler, modP,
+    handleFdWithoutPreviousMetadata, getP, hlen, hne, himm, Tracker.add, hr, hq,
+    nonIdleFsm, fsmAdvancementAfterPacketsWereSent, fsmFromReceiving, fsmFromWaitingForMetadata,
+    handleWaitingForMissingMetadata, deferredLostSegmentHandling, fsmFromCheckLimit,
+    fsmFromWaitingForMissingData, fsmFromTransferCompletion, fsmFromSendingFinishedPdu, fsmFromWaitingForFinishedAck,
+    noMdSt, noMdParams]
+
+/-- **Further File Data PDUs before the Metadata**: only the extent grows -/
+theorem C03_fd_without_metadata (env : Env) (d0 : DestSt) (h h' : Hdr) (rc : RemoteCfg) (m off : Nat)
+    (data : List UInt8) (ha : AdmissibleA env rc h') (hh : h'.src = h.src ∧ h'.seq = h.seq ∧ h.mode = .ack)
+    (himm : rc.imm = false) (hd : data ≠ []) (hq : d0.queue = []) (hr : d0.numReady = 0) :
+    stateMachine env (some (.fd h' off data)) (noMdSt d0 h rc m) = .ok () (noMdSt d0 h rc (off + data.length)) := by
+  have hlen : 0 < data.length := by cases data <;> simp_all
+  have hne : ¬ data.length = 0 := by omega
+  have hl : lookupRemote env.cfg.remotes h.src.val = some rc := by rw [← hh.1]; exact ha.hsrc
+  msimp [stateMachine, stateMachineWith, checkInsertedPacket, Pdu.hdr, ha.hdir, ha.hdst, ha.hsrc, hl, Pdu.kind,
+    Route.getPacketDestination, noMdSt, noMdParams, transmissionMode, hh.2.2, hh.1, hh.2.1,
+    modP, handleFdWithoutPreviousMetadata, getP, hlen, hne, himm, Tracker.add, hr, hq,
+    nonIdleFsm, fsmAdvancementAfterPacketsWereSent, fsmFromReceiving, fsmFromWaitingForMetadata,
+    handleWaitingForMissingMetadata, deferredLostSegmentHandling, fsmFromCheckLimit,
+    fsmFromWaitingForMissingData, fsmFromTransferCompletion, fsmFromSendingFinishedPdu, fsmFromWaitingForFinishedAck]
+
+def eofNoMdParams (h : Hdr) (rc : RemoteCfg) (m size : Nat) (crc : List UInt8) : Params :=
+  { noMdParams h rc m with progress := size, fileSizeEof := some size, crc32 := crc, trk := [(0, size)] }
+
+/-- the receiver after the EOF, still without Metadata: the EOF is acknowledged -/
+def eofNoMdSt (env : Env) (d0 : DestSt) (h : Hdr) (rc : RemoteCfg) (m size : Nat) (crc : List UInt8) : DestSt :=
+  { d0 with state := .busy, step := .SENDING_EOF_ACK_PDU, p := eofNoMdParams h rc m size crc,
+            queue := [mkAck { h with dir := .toSend } dtEof ccNoError tsActive], numReady := 1,
+            inds := d0.inds ++ (if env.cfg.indEofRecv then [.eofRecv ⟨h.src, h.seq⟩] else []) }
+
+/-- **EOF before the Metadata**: size and checksum are recorded, the whole file is recorded as
+missing, the EOF is acknowledged -/
+theorem C03_eof_without_metadata (env : Env) (d0 : DestSt) (h h' : Hdr) (rc : RemoteCfg) (m size : Nat)
+    (crc : List UInt8) (ha : AdmissibleA env rc h') (hh : h'.src = h.src ∧ h'.seq = h.seq ∧ h.mode = .ack)
+    (hsz : 0 < size) (hq : d0.queue = []) (hr : d0.numReady = 0) :
+    stateMachine env (some (.eof h' ccNoError crc size none)) (noMdSt d0 h rc m) =
+      .ok () (eofNoMdSt env d0 h rc m size crc) := by
+  have hl : lookupRemote env.cfg.remotes h.src.val = some rc := by rw [← hh.1]; exact ha.hsrc
+  cases hi : env.cfg.indEofRecv <;>
+  msimp [stateMachine, stateMachineWith, checkInsertedPacket, Pdu.hdr, ha.hdir, ha.hdst, ha.hsrc, hl, Pdu.kind,
+    Route.getPacketDestination, noMdSt, noMdParams, transmissionMode, hh.2.2, hh.1, hh.2.1,
+    modP, handleEofWithoutPreviousMetadata, getP, hsz, Tracker.add, hr, hq, hi, emitInd,
+    prepareEofAckPacket, addPacket, ccNoError,
+    nonIdleFsm, fsmAdvancementAfterPacketsWereSent, fsmFromReceiving, fsmFromWaitingForMetadata,
+    handleWaitingForMissingMetadata, deferredLostSegmentHandling, fsmFromCheckLimit,
+    fsmFromWaitingForMissingData, fsmFromTransferCompletion, fsmFromSendingFinishedPdu, fsmFromWaitingForFinishedAck,
+    eofNoMdSt, eofNoMdParams, dtEof]
+
+def defNoMdParams (h : Hdr) (rc : RemoteCfg) (m size now : Nat) (crc : List UInt8) : Params :=
+  { eofNoMdParams h rc m size crc with deferredActive := true, lastStart := size, lastEnd := size,
+                                       procTimer := some ⟨now, rc.nakMs⟩ }
+
+/-- the receiver after the deferred procedure was started without Metadata -/
+def defNoMdSt (env envE : Env) (d0 : DestSt) (h : Hdr) (rc : RemoteCfg) (m size : Nat) (crc : List UInt8) : DestSt :=
+  { d0 with state := .busy, step := .WAITING_FOR_METADATA, p := defNoMdParams h rc m size env.now crc,
+            queue := [mkNak { h with dir := .toSend } 0 size [(0, 0), (0, size)]], numReady := 1,
+            inds := d0.inds ++ (if envE.cfg.indEofRecv then [.eofRecv ⟨h.src, h.seq⟩] else []) }
+
+/-- **The deferred procedure without Metadata** requests the Metadata — `(0, 0)` — and the whole
+file — `(0, size)` — in one NAK PDU -/
+theorem C03_deferred_without_metadata (env envE : Env) (d0 : DestSt) (h : Hdr) (rc : RemoteCfg) (m size maxSegs : Nat)
+    (crc : List UInt8) (hmode : h.mode = .ack)
+    (hmax : maxSegReqs rc.maxPkt { h with dir := .toSend } = some maxSegs) (hms : 2 ≤ maxSegs) (hnak : rc.nakMs ≠ 0) :
+    stateMachine env none (drained (eofNoMdSt envE d0 h rc m size crc)) =
+      .ok () (defNoMdSt env envE d0 h rc m size crc) := by
+  unfold stateMachine
+  generalize (stateMachineWith env none (stateMachineWith env none (throw Err.recursionError))) = rec
+  have hnm : ¬ maxSegs ≤ 0 := by omega
+  have hnm1 : ¬ maxSegs ≤ 1 := by omega
+  have hpos : 0 < rc.nakMs := by omega
+  msimp [stateMachineWith, drained, eofNoMdSt, eofNoMdParams, noMdParams, nonIdleFsm,
+    fsmAdvancementAfterPacketsWereSent, startDeferredLostSegmentHandling, getP, modP,
+    Tracker.coalesce, Tracker.coalesceGo, deferredLostSegmentHandling, hmax, addPackets,
+    nakSequence, splitReqs, hnm, hnm1,
+    fsmFromReceiving, fsmFromWaitingForMetadata, handleWaitingForMissingMetadata, fsmFromCheckLimit,
+    fsmFromWaitingForMissingData,
+    Timer.busy, Timer.timedOut, hnak, hpos,
+    fsmFromTransferCompletion, fsmFromSendingFinishedPdu, fsmFromWaitingForFinishedAck, defNoMdSt, defNoMdParams]
+
+def mdLateParams (h : Hdr) (rc : RemoteCfg) (m size nowM : Nat) (crc : List UInt8) (closure : Bool) (cks : Nat)
+    (dname : String) : Params :=
+  { defNoMdParams h rc m size nowM crc with
+      cksType := cks, closure := closure, metadataMissing := false,
+      fileName := dname, fileSize := some size, nakCounter := 0,
+      procTimer := some ⟨nowM, rc.nakMs⟩,
+      fin := ⟨ccNoError, dcIncomplete, fsRetained, none⟩ }
+
+/-- the receiver after the re-sent Metadata arrived during the deferred procedure: the destination
+exists (empty), the receiver waits for the whole file -/
+def mdLateSt (envM envE : Env) (d0 : DestSt) (h : Hdr) (rc : RemoteCfg) (m size : Nat) (crc : List UInt8)
+    (closure : Bool) (cks : Nat) (sname dname : String) (msgs : Option (List Msg)) : DestSt :=
+  { d0 with state := .busy, step := .WAITING_FOR_MISSING_DATA,
+            p := mdLateParams h rc m size envM.now crc closure cks dname,
+            fs := d0.fs.set dname (.file []),
+            inds := d0.inds ++ (if envE.cfg.indEofRecv then [.eofRecv ⟨h.src, h.seq⟩] else []) ++
+              [.mdRecv (some ⟨h.src, h.seq⟩) h.src (some size) (some sname) (some dname) msgs] }
+
+/-- **The Metadata arrives after the EOF** (re-sent on the NAK): the destination file is created or
+truncated, the checksum type and closure flag are recorded, the receiver goes on waiting — now for
+file data only; the NAK activity counter and timer restart -/
+theorem C03_metadata_late (env envD envE : Env) (d0 : DestSt) (h h' : Hdr) (rc : RemoteCfg) (m size : Nat)
+    (crc : List UInt8) (closure : Bool) (cks : Nat) (sname dname : String) (msgs : Option (List Msg))
+    (ha : AdmissibleA env rc h') (hh : h'.src = h.src ∧ h'.seq = h.seq ∧ h.mode = .ack)
+    (hnak : rc.nakMs ≠ 0) (hq : d0.queue = []) (hr : d0.numReady = 0)
+    (hnd : Fs.isDir d0.fs dname = false)
+    (hok : (∃ old, d0.fs.get dname = some (.file old)) ∨
+           (Fs.exists' d0.fs dname = false ∧ Fs.parentIsDir d0.fs dname = true)) :
+    stateMachine env (some (.md h' closure cks size (some sname) (some dname) msgs))
+        (drained (defNoMdSt envD envE d0 h rc m size crc)) =
+      .ok () (mdLateSt env envE d0 h rc m size crc closure cks sname dname msgs) := by
+  have hl : lookupRemote env.cfg.remotes h.src.val = some rc := by rw [← hh.1]; exact ha.hsrc
+  have hpos : 0 < rc.nakMs := by omega
+  rcases hok with ⟨old, hf⟩ | ⟨h1, h2⟩
+  · have hex : Fs.exists' d0.fs dname = true := by simp [Fs.exists', hf]
+    have htr : Fs.truncateFile d0.fs dname = .ok (d0.fs.set dname (.file [])) := by simp [Fs.truncateFile, hf]
+    msimp [stateMachine, stateMachineWith, checkInsertedPacket, Pdu.hdr, ha.hdir, ha.hdst, ha.hsrc, hl, Pdu.kind,
+      Route.getPacketDestination, drained, defNoMdSt, defNoMdParams, eofNoMdParams, noMdParams, transmissionMode,
+      hh.2.2, hh.1, hh.2.1, modP, getP, nonIdleFsm, fsmAdvancementAfterPacketsWereSent, fsmFromReceiving,
+      fsmFromWaitingForMetadata, handleWaitingForMissingMetadata, handleMetadataPacket, initVfsHandling, hnd, hex, htr,
+      emitInd, resetNakActivityParameters, Timer.reset, deferredLostSegmentHandling, Timer.busy, Timer.timedOut, hnak,
+      hpos, hq, hr, fsmFromCheckLimit,
+      fsmFromWaitingForMissingData, fsmFromTransferCompletion, fsmFromSendingFinishedPdu, fsmFromWaitingForFinishedAck,
+      mdLateSt, mdLateParams]
+  · have hc : Fs.createFile d0.fs dname = (Fs.CREATE_SUCCESS, d0.fs.set dname (.file [])) := by
+      simp [Fs.createFile, h1, h2]
+    msimp [stateMachine, stateMachineWith, checkInsertedPacket, Pdu.hdr, ha.hdir, ha.hdst, ha.hsrc, hl, Pdu.kind,
+      Route.getPacketDestination, drained, defNoMdSt, defNoMdParams, eofNoMdParams, noMdParams, transmissionMode,
+      hh.2.2, hh.1, hh.2.1, modP, getP, nonIdleFsm, fsmAdvancementAfterPacketsWereSent, fsmFromReceiving,
+      fsmFromWaitingForMetadata, handleWaitingForMissingMetadata, handleMetadataPacket, initVfsHandling, hnd, h1, hc,
+      emitInd, resetNakActivityParameters, Timer.reset, deferredLostSegmentHandling, Timer.busy, Timer.timedOut, hnak,
+      hpos, hq, hr, fsmFromCheckLimit,
+      fsmFromWaitingForMissingData, fsmFromTransferCompletion, fsmFromSendingFinishedPdu, fsmFromWaitingForFinishedAck,
+      mdLateSt, mdLateParams]
+
+def missParams (h : Hdr) (rc : RemoteCfg) (m size tnow : Nat) (crc : List UInt8) (closure : Bool) (cks : Nat)
+    (dname : String) (a : Nat) : Params :=
+  { mdLateParams h rc m size tnow crc closure cks dname with trk := [(a, size)] }
+
+/-- the receiver waiting for the whole file after the late Metadata: the first `a` bytes have been
+re-sent and stored; `ex` = the File-Segment-Recv indications issued meanwhile -/
+def missSt (envE : Env) (d0 : DestSt) (h : Hdr) (rc : RemoteCfg) (m size : Nat) (crc : List UInt8)
+    (closure : Bool) (cks : Nat) (sname dname : String) (msgs : Option (List Msg)) (F : List UInt8)
+    (a tnow : Nat) (ex : List Ind) : DestSt :=
+  { d0 with state := .busy, step := .WAITING_FOR_MISSING_DATA,
+            p := missParams h rc m size tnow crc closure cks dname a,
+            fs := d0.fs.set dname (.file (F.take a)),
+            inds := d0.inds ++ (if envE.cfg.indEofRecv then [.eofRecv ⟨h.src, h.seq⟩] else []) ++
+              [.mdRecv (some ⟨h.src, h.seq⟩) h.src (some size) (some sname) (some dname) msgs] ++ ex }
+
+theorem mdLateSt_eq_missSt (envM envE : Env) (d0 : DestSt) (h : Hdr) (rc : RemoteCfg) (m size : Nat)
+    (crc : List UInt8) (closure : Bool) (cks : Nat) (sname dname : String) (msgs : Option (List Msg))
+    (F : List UInt8) :
+    mdLateSt envM envE d0 h rc m size crc closure cks sname dname msgs =
+      missSt envE d0 h rc m size crc closure cks sname dname msgs F 0 envM.now [] := by
+  simp [mdLateSt, missSt, missParams, mdLateParams, defNoMdParams, eofNoMdParams]
+
+/-- **A re-sent tile that is not the last one**: stored, removed from the head of the lost range, the
+NAK timer restarts; nothing is requested, nothing completes -/
+theorem C03_resent_tile (env envE : Env) (d0 : DestSt) (h h' : Hdr) (rc : RemoteCfg) (m : Nat)
+    (crc : List UInt8) (closure : Bool) (cks : Nat) (sname dname : String) (msgs : Option (List Msg))
+    (F : List UInt8) (a seg tnow : Nat) (ex : List Ind)
+    (ha : AdmissibleA env rc h') (hh : h'.src = h.src ∧ h'.seq = h.seq ∧ h.mode = .ack)
+    (hnak : rc.nakMs ≠ 0) (hq : d0.queue = []) (hr : d0.numReady = 0) (hrej : d0.rejects = [])
+    (hseg : 0 < seg) (hlt : a + seg < F.length) :
+    stateMachine env (some (.fd h' a ((F.drop a).take seg)))
+        (missSt envE d0 h rc m F.length crc closure cks sname dname msgs F a tnow ex) =
+      .ok () (missSt envE d0 h rc m F.length crc closure cks sname dname msgs F (a + seg) env.now
+        (ex ++ (if env.cfg.indSegRecv then [.segRecv (some ⟨h.src, h.seq⟩) a seg] else []))) := by
+  have hl : lookupRemote env.cfg.remotes h.src.val = some rc := by rw [← hh.1]; exact ha.hsrc
+  have hpos : 0 < rc.nakMs := by omega
+  have hdl : ((F.drop a).take seg).length = seg := by simp [List.length_take, List.length_drop]; omega
+  have hla : (F.take a).length = a := by simp [List.length_take]; omega
+  have hne : ((F.drop a).take seg).isEmpty = false := by
+    cases hx : (F.drop a).take seg with
+    | nil => rw [hx] at hdl; simp at hdl; omega
+    | cons _ _ => rfl
+  have hw : Fs.writeBytes (F.take a) ((F.drop a).take seg) a = F.take (a + seg) := by
+    have gen : ∀ (P data : List UInt8), data.isEmpty = false → Fs.writeBytes P data P.length = P ++ data := by
+      intro P data hd; simp [Fs.writeBytes, hd]
+    have hw0 := gen (F.take a) ((F.drop a).take seg) hne
+    rw [hla] at hw0
+    rw [hw0, List.take_add]
+  have h1 : ¬ a > F.length := by omega
+  have h2 : ¬ a ≥ F.length := by omega
+  have h3 : a + seg ≤ F.length := by omega
+  have h4 : ¬ a = a + seg := by omega
+  have h5 : ¬ a + seg > F.length := by omega
+  have h6 : ¬ a + seg = F.length := by omega
+  have h7 : ¬ seg = 0 := by omega
+  have hmax : max (a + seg) F.length = F.length := by omega
+  cases hi : env.cfg.indSegRecv <;>
+  msimp [stateMachine, stateMachineWith, checkInsertedPacket, Pdu.hdr, ha.hdir, ha.hdst, ha.hsrc, hl, Pdu.kind, h7,
+    Route.getPacketDestination, missSt, missParams, mdLateParams, defNoMdParams, eofNoMdParams, noMdParams,
+    transmissionMode, hh.2.2, hh.1, hh.2.1, modP, getP, nonIdleFsm, fsmAdvancementAfterPacketsWereSent, hq, hr,
+    fsmFromReceiving, fsmFromWaitingForMetadata, fsmFromCheckLimit, fsmFromWaitingForMissingData,
+    handleFdPdu, fdIndication, hi, emitInd, fdLostSegments, lostSegmentHandling, hdl, h1, h2, h3, h4, h5, h6,
+    Tracker.remove, Tracker.lookup, Tracker.erase, Tracker.add,
+    fdWrite, vfsWriteData, hrej, Fs.writeData, Fs.C17.get_set_same, hw, fdAfterWrite, sizeErrOf, hmax,
+    resetNakActivityParameters, Timer.reset, deferredLostSegmentHandling, Timer.busy, Timer.timedOut, hnak, hpos,
+    fsmFromTransferCompletion, fsmFromSendingFinishedPdu, fsmFromWaitingForFinishedAck, fs_set_set]
+
+def finLateParams (h : Hdr) (rc : RemoteCfg) (m size tnow : Nat) (crc : List UInt8) (closure : Bool) (cks : Nat)
+    (dname : String) : Params :=
+  { mdLateParams h rc m size tnow crc closure cks dname with
+      trk := [], deferredActive := false,
+      fin := ⟨ccNoError, dcComplete, fsRetained, none⟩,
+      ackTimer := some ⟨tnow, rc.ackMs⟩, ackCounter := 0 }
+
+/-- the receiver after the last re-sent tile: complete, verified, Finished PDU queued -/
+def finLateSt (env envE : Env) (d0 : DestSt) (h : Hdr) (rc : RemoteCfg) (m size : Nat) (crc : List UInt8)
+    (closure : Bool) (cks : Nat) (sname dname : String) (msgs : Option (List Msg)) (F : List UInt8)
+    (a : Nat) (ex : List Ind) : DestSt :=
+  { d0 with state := .busy, step := .WAITING_FOR_FINISHED_ACK,
+            p := finLateParams h rc m size env.now crc closure cks dname,
+            fs := d0.fs.set dname (.file F),
+            queue := [mkFin { h with dir := .toSend } ⟨ccNoError, dcComplete, fsRetained, none⟩], numReady := 1,
+            inds := d0.inds ++ (if envE.cfg.indEofRecv then [.eofRecv ⟨h.src, h.seq⟩] else []) ++
+              [.mdRecv (some ⟨h.src, h.seq⟩) h.src (some size) (some sname) (some dname) msgs] ++ ex ++
+              (if env.cfg.indSegRecv then [.segRecv (some ⟨h.src, h.seq⟩) a (size - a)] else []) ++
+              (if env.cfg.indFinished
+                then [.finished (some ⟨h.src, h.seq⟩) ⟨ccNoError, dcComplete, fsRetained, none⟩] else []) }
+
+/-- **The last re-sent tile**: the file is complete; in the same call the checksum is verified, the
+user is told (No error, Data complete, File retained), one Finished PDU with those values is queued
+and its positive ACK procedure started -/
+theorem C03_resent_last_tile (env envE : Env) (d0 : DestSt) (h h' : Hdr) (rc : RemoteCfg) (m : Nat)
+    (crc : List UInt8) (closure : Bool) (cks : Nat) (sname dname : String) (msgs : Option (List Msg))
+    (F : List UInt8) (a seg tnow : Nat) (ex : List Ind)
+    (ha : AdmissibleA env rc h') (hh : h'.src = h.src ∧ h'.seq = h.seq ∧ h.mode = .ack)
+    (hnak : rc.nakMs ≠ 0) (hack : rc.ackMs ≠ 0) (hq : d0.queue = []) (hr : d0.numReady = 0) (hrej : d0.rejects = [])
+    (hseg : 0 < seg) (hlt : a < F.length) (hend : F.length ≤ a + seg)
+    (hver : cks = 15 ∨ ∀ fs : Fs, fs.get dname = some (.file F) →
+      Fs.calcChecksum fs (Checksum.CksType.ofNat cks) dname F.length 4096 = .ok crc) :
+    stateMachine env (some (.fd h' a ((F.drop a).take seg)))
+        (missSt envE d0 h rc m F.length crc closure cks sname dname msgs F a tnow ex) =
+      .ok () (finLateSt env envE d0 h rc m F.length crc closure cks sname dname msgs F a ex) := by
+  unfold stateMachine
+  generalize (stateMachineWith env none (stateMachineWith env none (throw Err.recursionError))) = rec
+  have hl : lookupRemote env.cfg.remotes h.src.val = some rc := by rw [← hh.1]; exact ha.hsrc
+  have hpos : 0 < rc.nakMs := by omega
+  have hpos2 : 0 < rc.ackMs := by omega
+  have hdl : ((F.drop a).take seg).length = F.length - a := by simp [List.length_take, List.length_drop]; omega
+  have hla : (F.take a).length = a := by simp [List.length_take]; omega
+  have hne : ((F.drop a).take seg).isEmpty = false := by
+    cases hx : (F.drop a).take seg with
+    | nil => rw [hx] at hdl; simp at hdl; omega
+    | cons _ _ => rfl
+  have hall : (F.drop a).take seg = F.drop a := List.take_of_length_le (by simp [List.length_drop]; omega)
+  have hw : Fs.writeBytes (F.take a) ((F.drop a).take seg) a = F := by
+    have gen : ∀ (P data : List UInt8), data.isEmpty = false → Fs.writeBytes P data P.length = P ++ data := by
+      intro P data hd; simp [Fs.writeBytes, hd]
+    have hw0 := gen (F.take a) ((F.drop a).take seg) hne
+    rw [hla] at hw0
+    rw [hw0, hall, List.take_append_drop]
+  have h1 : ¬ a > F.length := by omega
+  have h2 : ¬ a ≥ F.length := by omega
+  have h3 : a + (F.length - a) ≤ F.length := by omega
+  have h4 : ¬ a = a + (F.length - a) := by omega
+  have h5 : ¬ a + (F.length - a) > F.length := by omega
+  have h6 : a + (F.length - a) = F.length := by omega
+  have h7 : ¬ F.length - a = 0 := by omega
+  have h8 : ¬ a = F.length := by omega
+  have hmax : max (a + (F.length - a)) F.length = F.length := by omega
+  have hfile : ∀ fs : Fs, (fs.set dname (.file F)).get dname = some (.file F) := fun fs => Fs.C17.get_set_same _ _ _
+  rcases hver with hnull | hc
+  · cases hi : env.cfg.indSegRecv <;> cases hf : env.cfg.indFinished <;>
+    msimp [stateMachineWith, checkInsertedPacket, Pdu.hdr, ha.hdir, ha.hdst, ha.hsrc, hl, Pdu.kind, h7, h8,
+      Route.getPacketDestination, missSt, missParams, mdLateParams, defNoMdParams, eofNoMdParams, noMdParams,
+      transmissionMode, hh.2.2, hh.1, hh.2.1, modP, getP, nonIdleFsm, fsmAdvancementAfterPacketsWereSent, hq, hr,
+      fsmFromReceiving, fsmFromWaitingForMetadata, fsmFromCheckLimit, fsmFromWaitingForMissingData,
+      handleFdPdu, fdIndication, hi, emitInd, fdLostSegments, lostSegmentHandling, hdl, h1, h2, h3, h4, h5, h6,
+      Tracker.remove, Tracker.lookup, Tracker.erase, Tracker.add,
+      fdWrite, vfsWriteData, hrej, Fs.writeData, Fs.C17.get_set_same, hw, fdAfterWrite, sizeErrOf, hmax,
+      resetNakActivityParameters, Timer.reset, deferredLostSegmentHandling, checksumVerify, hnull, markComplete,
+      fsmFromTransferCompletion, handleTransferCompletion, noticeOfCompletion, hf,
+      fsmFromSendingFinishedPdu, prepareFinishedPdu, addPacket, handleFinishedPduSent, startPositiveAckProcedure,
+      fsmFromWaitingForFinishedAck, handleWaitingForFinishedAck, handlePositiveAckProcedures, Timer.timedOut,
+      hack, hpos2, fs_set_set, finLateSt, finLateParams]
+  · by_cases hnull : cks = 15
+    · cases hi : env.cfg.indSegRecv <;> cases hf : env.cfg.indFinished <;>
+      msimp [stateMachineWith, checkInsertedPacket, Pdu.hdr, ha.hdir, ha.hdst, ha.hsrc, hl, Pdu.kind, h7, h8,
+        Route.getPacketDestination, missSt, missParams, mdLateParams, defNoMdParams, eofNoMdParams, noMdParams,
+        transmissionMode, hh.2.2, hh.1, hh.2.1, modP, getP, nonIdleFsm, fsmAdvancementAfterPacketsWereSent, hq, hr,
+        fsmFromReceiving, fsmFromWaitingForMetadata, fsmFromCheckLimit, fsmFromWaitingForMissingData,
+        handleFdPdu, fdIndication, hi, emitInd, fdLostSegments, lostSegmentHandling, hdl, h1, h2, h3, h4, h5, h6,
+        Tracker.remove, Tracker.lookup, Tracker.erase, Tracker.add,
+        fdWrite, vfsWriteData, hrej, Fs.writeData, Fs.C17.get_set_same, hw, fdAfterWrite, sizeErrOf, hmax,
+        resetNakActivityParameters, Timer.reset, deferredLostSegmentHandling, checksumVerify, hnull, markComplete,
+        fsmFromTransferCompletion, handleTransferCompletion, noticeOfCompletion, hf,
+        fsmFromSendingFinishedPdu, prepareFinishedPdu, addPacket, handleFinishedPduSent, startPositiveAckProcedure,
+        fsmFromWaitingForFinishedAck, handleWaitingForFinishedAck, handlePositiveAckProcedures, Timer.timedOut,
+        hack, hpos2, fs_set_set, finLateSt, finLateParams]
+    · have hcc := hc ((d0.fs.set dname (.file (F.take a))).set dname (.file F)) (Fs.C17.get_set_same _ _ _)
+      rw [fs_set_set] at hcc
+      cases hi : env.cfg.indSegRecv <;> cases hf : env.cfg.indFinished <;>
+      msimp [stateMachineWith, checkInsertedPacket, Pdu.hdr, ha.hdir, ha.hdst, ha.hsrc, hl, Pdu.kind, h7, h8,
+        Route.getPacketDestination, missSt, missParams, mdLateParams, defNoMdParams, eofNoMdParams, noMdParams,
+        transmissionMode, hh.2.2, hh.1, hh.2.1, modP, getP, nonIdleFsm, fsmAdvancementAfterPacketsWereSent, hq, hr,
+        fsmFromReceiving, fsmFromWaitingForMetadata, fsmFromCheckLimit, fsmFromWaitingForMissingData,
+        handleFdPdu, fdIndication, hi, emitInd, fdLostSegments, lostSegmentHandling, hdl, h1, h2, h3, h4, h5, h6,
+        Tracker.remove, Tracker.lookup, Tracker.erase, Tracker.add,
+        fdWrite, vfsWriteData, hrej, Fs.writeData, Fs.C17.get_set_same, hw, fdAfterWrite, sizeErrOf, hmax,
+        resetNakActivityParameters, Timer.reset, deferredLostSegmentHandling, checksumVerify, hnull, hcc, markComplete,
+        fsmFromTransferCompletion, handleTransferCompletion, noticeOfCompletion, hf,
+        fsmFromSendingFinishedPdu, prepareFinishedPdu, addPacket, handleFinishedPduSent, startPositiveAckProcedure,
+        fsmFromWaitingForFinishedAck, handleWaitingForFinishedAck, handlePositiveAckProcedures, Timer.timedOut,
+        hack, hpos2, fs_set_set, finLateSt, finLateParams]
+
+/-! ### inductions over the tiles, and the composition -/
+
+/-- the receiver takes the sender's tiles without having seen the Metadata: nothing is stored, the
+extent is recorded -/
+theorem C03_tiles_without_metadata (env : Env) (d0 : DestSt) (conf : Hdr) (rc : RemoteCfg) (F : List UInt8)
+    (seg : Nat) (hseg : 0 < seg) (ha : AdmissibleA env rc { conf with dir := .toRecv }) (himm : rc.imm = false)
+    (hidle : d0.state = .idle) (hq : d0.queue = []) (hr : d0.numReady = 0) :
+    ∀ k, (k * seg < F.length) →
+      feedPdus env ((List.range (k + 1)).map (Source.C07.tile conf F seg 0)) d0 =
+        some (noMdSt d0 { conf with dir := .toRecv } rc (min ((k + 1) * seg) F.length)) := by
+  intro k
+  induction k with
+  | zero =>
+    intro hk
+    have hF : 0 < F.length := by simpa using hk
+    have hl0 : ((F.drop 0).take seg).length = min seg F.length := by simp [List.length_take]
+    have hd : (F.drop 0).take seg ≠ [] := by
+      intro h0
+      rw [h0] at hl0
+      simp at hl0; omega
+    have h1 := C03_first_fd_without_metadata env d0 { conf with dir := .toRecv } rc 0 ((F.drop 0).take seg) ha himm hd
+      hidle hq hr
+    have hl : ((F.drop 0).take seg).length = min seg F.length := by simp [List.length_take]
+    simp only [List.range_one, List.map_cons, List.map_nil, feedPdus, Source.C07.tile, Source.mkFd, Nat.zero_mul,
+      Nat.add_zero, h1, hl, Nat.zero_add, Nat.one_mul]
+  | succ k ih =>
+    intro hk
+    have hk' : k * seg < F.length := by
+      have : k * seg ≤ (k + 1) * seg := Nat.mul_le_mul_right _ (by omega)
+      omega
+    have hprev := ih hk'
+    have e1 : (k + 1) * seg = k * seg + seg := by rw [Nat.add_mul, Nat.one_mul]
+    have e2 : (k + 1 + 1) * seg = (k + 1) * seg + seg := by rw [Nat.add_mul, Nat.one_mul]
+    have hd : (F.drop ((k + 1) * seg)).take seg ≠ [] := by
+      intro h0
+      have := congrArg List.length h0
+      simp [List.length_take, List.length_drop] at this; omega
+    have hstep := C03_fd_without_metadata env d0 { conf with dir := .toRecv } { conf with dir := .toRecv } rc
+      (min ((k + 1) * seg) F.length) ((k + 1) * seg) ((F.drop ((k + 1) * seg)).take seg) ha ⟨rfl, rfl, ha.hmode⟩ himm hd hq hr
+    have hl : ((F.drop ((k + 1) * seg)).take seg).length = min seg (F.length - (k + 1) * seg) := by
+      simp [List.length_take, List.length_drop]
+    have hm : (k + 1) * seg + min seg (F.length - (k + 1) * seg) = min ((k + 1 + 1) * seg) F.length := by omega
+    rw [List.range_succ, List.map_append, feedPdus_append, hprev]
+    simp only [Option.bind, List.map_cons, List.map_nil, feedPdus, Source.C07.tile, Source.mkFd, Nat.zero_add, hstep,
+      hl, hm]
+
+/-- the re-sent tiles but the last: each is stored and removed from the head of the lost range -/
+theorem C03_resent_tiles (env envE : Env) (d0 : DestSt) (conf : Hdr) (rc : RemoteCfg) (m : Nat)
+    (crc : List UInt8) (closure : Bool) (cks : Nat) (sname dname : String) (msgs : Option (List Msg))
+    (F : List UInt8) (seg t0 : Nat)
+    (ha : AdmissibleA env rc { conf with dir := .toRecv })
+    (hnak : rc.nakMs ≠ 0) (hq : d0.queue = []) (hr : d0.numReady = 0) (hrej : d0.rejects = [])
+    (hseg : 0 < seg) :
+    ∀ j, j * seg < F.length →
+      ∃ t ex, feedPdus env ((List.range j).map (Source.C07.tile conf F seg 0))
+          (missSt envE d0 { conf with dir := .toRecv } rc m F.length crc closure cks sname dname msgs F 0 t0 []) =
+        some (missSt envE d0 { conf with dir := .toRecv } rc m F.length crc closure cks sname dname msgs F (j * seg) t ex) ∧
+        ex.filter isFinished = [] := by
+  intro j
+  induction j with
+  | zero => intro _; exact ⟨t0, [], by simp [feedPdus], rfl⟩
+  | succ j ih =>
+    intro hj
+    have e1 : (j + 1) * seg = j * seg + seg := by rw [Nat.add_mul, Nat.one_mul]
+    obtain ⟨t, ex, hfeed, hex⟩ := ih (by omega)
+    have hstep := C03_resent_tile env envE d0 { conf with dir := .toRecv } { conf with dir := .toRecv } rc m crc closure cks
+      sname dname msgs F (j * seg) seg t ex ha ⟨rfl, rfl, ha.hmode⟩ hnak hq hr hrej hseg (by omega)
+    refine ⟨env.now, ex ++ (if env.cfg.indSegRecv
+      then [.segRecv (some ⟨conf.src, conf.seq⟩) (j * seg) seg] else []), ?_, ?_⟩
+    · rw [List.range_succ, List.map_append, feedPdus_append, hfeed]
+      simp only [Option.bind, List.map_cons, List.map_nil, feedPdus, Source.C07.tile, Source.mkFd, Nat.zero_add, hstep, e1]
+    · simp only [List.filter_append, hex]
+      cases env.cfg.indSegRecv <;> simp [isFinished]
+
+open Source.C07 Source.C19 in
+/-- **End to end with the Metadata PDU lost (deferred NAK mode): the two models composed.**  The
+first PDU the receiver sees is File Data: it starts the transaction without a destination, stores
+nothing and records the extent; it acknowledges the EOF; its next call requests, in one NAK PDU, the
+Metadata — `(0, 0)` — and the whole file — `(0, |F|)`.  The sender answers with exactly the original
+Metadata PDU followed by exactly the original tiles.  The receiver creates the destination, stores
+the tiles — each one shrinks the lost range from its head —, verifies with the last one and emits the
+Finished PDU; the closing handshake follows.  No call raises; both end idle; the destination file is
+byte-identical; one successful Transaction-Finished indication on each side; no fault callback. -/
+theorem C03_end_to_end_metadata_loss (envS : Source.Env) (envD : Dest.Env) (s : Source.SrcSt) (d0 : Dest.DestSt)
+    (req : Source.PutReq) (rcS rcD : RemoteCfg) (src dst : String) (F crc : List UInt8) (seg n maxSegs : Nat)
+    (tA tD1 tN tD2 tF tD3 tC : Nat)
+    (hst : s.state = .busy) (hstep : s.step = .IDLE) (hq : s.queue = []) (hreq : s.putReq = some req)
+    (hpmo : s.p.metadataOnly = false) (hsrc : req.src = some src) (hdst : req.dst = some dst)
+    (hfile : s.fs.get src = some (.file F)) (hF : F ≠ []) (hprog : s.p.progress = 0)
+    (hrc : s.p.remoteCfg = some rcS) (hrcid : rcS.entityId.val = req.destId.val)
+    (hbits : s.prov.bits = 8 ∨ s.prov.bits = 16 ∨ s.prov.bits = 32)
+    (hseg : Source.segLenOf rcS (startConf envS req rcS s (decide (F.length > 4294967295))) = some seg)
+    (hseg0 : 0 < seg) (hmode : s.p.conf.mode = .ack) (hct : s.p.checkTimer = none)
+    (hk : n * seg < F.length ∧ F.length ≤ (n + 1) * seg)
+    (hcks : Checksum.calcChecksum (Checksum.CksType.ofNat rcS.cks) F F.length seg = .ok crc)
+    (hnull : Checksum.CksType.ofNat rcS.cks ≠ .null) (hlen : crc.length = 4) (hack : rcS.ackMs ≠ 0)
+    (ha : AdmissibleA envD rcD { startConf envS req rcS s (decide (F.length > 4294967295)) with dir := .toRecv })
+    (hackD : rcD.ackMs ≠ 0) (hnak : rcD.nakMs ≠ 0) (himm : rcD.imm = false)
+    (hmaxs : maxSegReqs rcD.maxPkt
+      (let c := startConf envS req rcS s (decide (F.length > 4294967295))
+       ⟨.toSend, c.mode, c.crc, c.large, c.src, c.dst, c.seq⟩) = some maxSegs) (hmax2 : 2 ≤ maxSegs)
+    (hidle : d0.state = .idle) (hdq : d0.queue = []) (hdr : d0.numReady = 0) (hrej : d0.rejects = [])
+    (hfl : d0.flts = []) (hnd : Fs.isDir d0.fs dst = false)
+    (hok : (∃ old, d0.fs.get dst = some (.file old)) ∨
+           (Fs.exists' d0.fs dst = false ∧ Fs.parentIsDir d0.fs dst = true)) :
+    let conf := startConf envS req rcS s (decide (F.length > 4294967295))
+    let cd : Hdr := ⟨.toSend, conf.mode, conf.crc, conf.large, conf.src, conf.dst, conf.seq⟩
+    let fpOk : FinishedParams := ⟨ccNoError, dcComplete, fsRetained, none⟩
+    let md := Source.mkMd conf s.p.closure rcS.cks F.length (some src) (some dst) (some (req.msgs.getD []))
+    let tiles := (List.range (n + 1)).map (tile conf F seg 0)
+    let nak : Pdu := .nak cd 0 F.length [(0, 0), (0, F.length)]
+    ∃ s3 d5 s4 d6 s5 d7 s6 d8 s7,
+      -- the sender's run; the Metadata PDU is lost, the rest arrives; the EOF is acknowledged
+      rounds envS (1 + (n + 1) + 1) s = some ([md] ++ tiles ++ [Source.mkEof conf ccNoError crc F.length], s3) ∧
+      feedPdus envD (tiles ++ [Source.mkEof conf ccNoError crc F.length]) d0 = some d5 ∧
+      d5.queue = [.ack cd dtEof ccNoError tsActive] ∧ d5.fs = d0.fs ∧
+      Source.stateMachine ⟨envS.cfg, tA⟩ (some (.ack cd dtEof ccNoError tsActive)) s3 = .ok () s4 ∧
+      -- one NAK: the Metadata and the whole file; the answer: the original Metadata and tiles
+      Dest.stateMachine ⟨envD.cfg, tD1⟩ none (drained d5) = .ok () d6 ∧ d6.queue = [nak] ∧
+      Source.stateMachine ⟨envS.cfg, tN⟩ (some nak) s4 = .ok () s5 ∧ s5.queue = [md] ++ tiles ∧
+      feedPdus ⟨envD.cfg, tD2⟩ ([md] ++ tiles) (drained d6) = some d7 ∧ d7.queue = [.fin cd fpOk] ∧
+      -- closing handshake
+      Source.stateMachine ⟨envS.cfg, tF⟩ (some (.fin cd fpOk)) (Source.C07.drained s5) = .ok () s6 ∧
+      s6.queue = [Source.mkAck conf dtFinished ccNoError tsActive] ∧
+      Dest.stateMachine ⟨envD.cfg, tD3⟩ (some (Source.mkAck conf dtFinished ccNoError tsActive)) (drained d7) = .ok () d8 ∧
+      Source.stateMachine ⟨envS.cfg, tC⟩ none (Source.C07.drained s6) = .ok () s7 ∧
+      s7.state = .idle ∧ d8.state = .idle ∧ s7.queue = [] ∧ d8.queue = [] ∧
+      d8.fs.get dst = some (.file F) ∧ (∀ q, q ≠ dst → d8.fs.get q = d0.fs.get q) ∧ s7.fs = s.fs ∧
+      d8.flts = [] ∧ s7.flts = s.flts ∧
+      s7.inds.filter isFinished = s.inds.filter isFinished ++
+        (if envS.cfg.indFinished then [.finished (some ⟨envS.cfg.entityId, ⟨s.prov.next, s.prov.bits / 8⟩⟩) fpOk]
+         else []) ∧
+      d8.inds.filter isFinished = d0.inds.filter isFinished ++
+        (if envD.cfg.indFinished then [.finished (some ⟨conf.src, conf.seq⟩) fpOk] else []) := by
+  intro conf cd fpOk md tiles nak
+  let tid : Tid := ⟨envS.cfg.entityId, ⟨s.prov.next, s.prov.bits / 8⟩⟩
+  have hsrcv : conf.src.val = envS.cfg.entityId.val := by simp [conf, startConf]
+  have hdstv : conf.dst.val = rcS.entityId.val := by simp [conf, startConf, hrcid]
+  have hmodeC : conf.mode = .ack := by simp [conf, startConf, hmode]
+  have e1 : (n + 1) * seg = n * seg + seg := by rw [Nat.add_mul, Nat.one_mul]
+  have hFl : 0 < F.length := by
+    cases F with
+    | nil => exact absurd rfl hF
+    | cons _ _ => simp
+  have haT : ∀ t, AdmissibleA ⟨envD.cfg, t⟩ rcD { conf with dir := .toRecv } := fun t => ⟨rfl, ha.hdst, ha.hsrc, ha.hmode⟩
+  -- the sender's run
+  obtain ⟨s3, hrun, hS3, hstep3, -, -, hsz3, -, -, hct3, hfs3, hfl3, hin3, hcl3⟩ :=
+    C03_sender_run_to_eof envS s req rcS src dst F crc seg (n + 1) hst hstep hq hreq hpmo hsrc hdst hfile hF hprog hrc
+      hbits hseg hseg0 hmode hct (by simpa using hk) hcks hnull hlen hack
+  have hadm3 : AdmissibleS ⟨envS.cfg, tA⟩ s3 rcS cd :=
+    { hdir := rfl, hsrc := hsrcv, hrc := hS3.hrc, hdst := hdstv, hseq := by rw [hS3.hconf],
+      hmode := by rw [hS3.hconf]; exact hmodeC }
+  have h4 := C02_source_eof_acked ⟨envS.cfg, tA⟩ s3 rcS cd ccNoError tsActive req hadm3 hS3.hbusy hstep3 hS3.hqueue
+    hS3.hreq hct3
+  have hW4 : WaitingFinS { s3 with step := .WAITING_FOR_FINISHED } req src F seg conf rcS tid :=
+    ⟨hS3.hbusy, rfl, hS3.hqueue, hS3.hreq, hS3.hsrc, hS3.hfile, hS3.hseg, hS3.hprog, hS3.hconf, hS3.hrc, hS3.htid⟩
+  -- the receiver up to the EOF
+  have htiles := C03_tiles_without_metadata envD d0 conf rcD F seg hseg0 ha himm hidle hdq hdr n hk.1
+  have hmin : min ((n + 1) * seg) F.length = F.length := by omega
+  rw [hmin] at htiles
+  have heof := C03_eof_without_metadata envD d0 { conf with dir := .toRecv } { conf with dir := .toRecv } rcD F.length F.length crc ha ⟨rfl, rfl, ha.hmode⟩ hFl hdq hdr
+  have hfeed1 : feedPdus envD (tiles ++ [Source.mkEof conf ccNoError crc F.length]) d0 =
+      some (eofNoMdSt envD d0 { conf with dir := .toRecv } rcD F.length F.length crc) := by
+    rw [feedPdus_append, htiles]
+    simp only [Option.bind, feedPdus, Source.mkEof, heof]
+  -- the deferred procedure
+  have hdef := C03_deferred_without_metadata ⟨envD.cfg, tD1⟩ envD d0 { conf with dir := .toRecv } rcD F.length F.length maxSegs crc ha.hmode
+    (by simpa [conf] using hmaxs) hmax2 hnak
+  -- the sender's answer
+  have hadm4 : AdmissibleS ⟨envS.cfg, tN⟩ { s3 with step := .WAITING_FOR_FINISHED } rcS cd :=
+    { hdir := rfl, hsrc := hsrcv, hrc := hS3.hrc, hdst := hdstv,
+      hseq := by show cd.seq.val = s3.p.conf.seq.val; rw [hS3.hconf],
+      hmode := by show s3.p.conf.mode = .ack; rw [hS3.hconf]; exact hmodeC }
+  have h5 := C03_sender_serves_metadata_and_file ⟨envS.cfg, tN⟩ { s3 with step := .WAITING_FOR_FINISHED } rcS cd req
+    src dst F seg (n + 1) 0 F.length conf tid hadm4 hW4 hdst hsz3 hseg0 (by simpa using hk) hF
+  have hcl : ({ s3 with step := .WAITING_FOR_FINISHED } : Source.SrcSt).p.closure = s.p.closure := hcl3
+  rw [hcl] at h5
+  -- the receiver takes the Metadata and the tiles
+  have hmdl := C03_metadata_late ⟨envD.cfg, tD2⟩ ⟨envD.cfg, tD1⟩ envD d0 { conf with dir := .toRecv } { conf with dir := .toRecv } rcD F.length F.length crc s.p.closure rcS.cks src
+    dst (some (req.msgs.getD [])) (haT tD2) ⟨rfl, rfl, ha.hmode⟩ hnak hdq hdr hnd hok
+  rw [mdLateSt_eq_missSt _ _ _ _ _ _ _ _ _ _ _ _ _ F] at hmdl
+  obtain ⟨t, ex, hres, hex⟩ := C03_resent_tiles ⟨envD.cfg, tD2⟩ envD d0 conf rcD F.length crc s.p.closure rcS.cks src dst
+    (some (req.msgs.getD [])) F seg tD2 (haT tD2) hnak hdq hdr hrej hseg0 n hk.1
+  have hcrc : rcS.cks = 15 ∨ ∀ fs : Fs, fs.get dst = some (.file F) →
+      Fs.calcChecksum fs (Checksum.CksType.ofNat rcS.cks) dst F.length 4096 = .ok crc := by
+    right
+    intro fs hf
+    have := Checksum.C09.C09_chunk_length_irrelevant (Checksum.CksType.ofNat rcS.cks) F F.length seg 4096
+      (by omega) (by omega)
+    simp [Fs.calcChecksum, hnull, hf, ← this, hcks]
+  have hlast := C03_resent_last_tile ⟨envD.cfg, tD2⟩ envD d0 { conf with dir := .toRecv } { conf with dir := .toRecv } rcD F.length crc s.p.closure rcS.cks src dst
+    (some (req.msgs.getD [])) F (n * seg) seg t ex (haT tD2) ⟨rfl, rfl, ha.hmode⟩ hnak hackD hdq hdr hrej hseg0 hk.1
+    (by omega) hcrc
+  have hfeed2 : feedPdus ⟨envD.cfg, tD2⟩ ([md] ++ tiles)
+      (drained (defNoMdSt ⟨envD.cfg, tD1⟩ envD d0 { conf with dir := .toRecv } rcD F.length F.length crc)) =
+      some (finLateSt ⟨envD.cfg, tD2⟩ envD d0 { conf with dir := .toRecv } rcD F.length F.length crc s.p.closure rcS.cks src dst
+        (some (req.msgs.getD [])) F (n * seg) ex) := by
+    simp only [List.singleton_append, feedPdus, md, Source.mkMd, hmdl, tiles, List.range_succ, List.map_append,
+      feedPdus_append, hres, Option.bind, List.map_cons, List.map_nil, tile, Source.mkFd, Nat.zero_add, hlast]
+  -- the closing handshake
+  have hadm6 : AdmissibleS ⟨envS.cfg, tF⟩
+      (Source.C07.drained (retransS { s3 with step := .WAITING_FOR_FINISHED } ([md] ++ tiles))) rcS cd :=
+    { hdir := rfl, hsrc := hsrcv, hrc := hS3.hrc, hdst := hdstv,
+      hseq := by show cd.seq.val = s3.p.conf.seq.val; rw [hS3.hconf],
+      hmode := by show s3.p.conf.mode = .ack; rw [hS3.hconf]; exact hmodeC }
+  have h6 := C03_sender_finished_after_retransmission ⟨envS.cfg, tF⟩
+    (Source.C07.drained (retransS { s3 with step := .WAITING_FOR_FINISHED } ([md] ++ tiles))) rcS cd fpOk req hadm6
+    hS3.hbusy rfl rfl rfl hS3.hreq
+  have h7 := C02_finished_acked ⟨envD.cfg, tD3⟩
+    (drained (finLateSt ⟨envD.cfg, tD2⟩ envD d0 { conf with dir := .toRecv } rcD F.length F.length crc s.p.closure rcS.cks src dst
+      (some (req.msgs.getD [])) F (n * seg) ex))
+    rcD { conf with dir := .toRecv } ccNoError tsActive (haT tD3) rfl rfl rfl
+    (by simp [C02.drained, finLateSt, finLateParams, mdLateParams, defNoMdParams, eofNoMdParams, noMdParams]; exact hmodeC)
+  have h8 := C02_source_completion ⟨envS.cfg, tC⟩
+    (Source.C07.drained (afterFinS (waitFinS
+      (Source.C07.drained (retransS { s3 with step := .WAITING_FOR_FINISHED } ([md] ++ tiles)))) fpOk)) fpOk tid req
+    hS3.hbusy rfl rfl hS3.hreq rfl hS3.htid
+  refine ⟨s3, _, _, _, _, _, _,
+    idleOf (drained (finLateSt ⟨envD.cfg, tD2⟩ envD d0 { conf with dir := .toRecv } rcD F.length F.length crc s.p.closure rcS.cks src dst
+      (some (req.msgs.getD [])) F (n * seg) ex)), _,
+    hrun, hfeed1, ?_, rfl, h4, hdef, ?_, h5, rfl, hfeed2, ?_, h6, ?_, ?_, h8, rfl, rfl, rfl, rfl, ?_, ?_, ?_, ?_, ?_, ?_,
+    ?_⟩
+  · simp [eofNoMdSt, Dest.mkAck, dtEof, dtFinished, cd]
+  · simp [defNoMdSt, Dest.mkNak, nak, cd]
+  · simp [finLateSt, Dest.mkFin, cd, fpOk]
+  · show [Source.mkAck s3.p.conf dtFinished fpOk.cond tsActive] = _
+    rw [hS3.hconf]
+  · simpa [Source.mkAck, dtFinished, idleOf] using h7
+  · simp [idleOf, C02.drained, finLateSt, Fs.C17.get_set_same]
+  · intro q hq'
+    simp only [idleOf, C02.drained, finLateSt]
+    rw [Fs.C17.get_set_other _ _ _ _ hq']
+  · simp [Source.C07.drained, afterFinS, waitFinS, retransS, hfs3]
+  · simp [idleOf, C02.drained, finLateSt, hfl]
+  · simp [Source.C07.drained, afterFinS, waitFinS, retransS, hfl3]
+  · simp only [Source.C07.drained, afterFinS, waitFinS, retransS, List.filter_append, hin3]
+    cases envS.cfg.indFinished <;> simp [isFinished, fpOk, tid]
+  · simp only [idleOf, C02.drained, finLateSt, List.filter_append, hex]
+    cases envD.cfg.indEofRecv <;> cases envD.cfg.indSegRecv <;> cases envD.cfg.indFinished <;>
+      simp [isFinished, fpOk]
+
+
 end Cfdp.C03
 
 /-! ## the hypotheses of the composed theorems are satisfiable (non-vacuity) -/
@@ -3149,6 +3842,17 @@ example : True := by
     rfl rfl rfl rfl rfl rfl rfl rfl (by decide) rfl rfl rfl (by decide) (by decide) (by decide) rfl rfl
     (by decide) (by decide +kernel) (by decide) rfl (by decide)
     ⟨rfl, rfl, by decide, rfl⟩ (by decide) rfl
+    rfl rfl rfl rfl rfl (by decide) (Or.inl ⟨[9], rfl⟩)
+  trivial
+
+/-- the hypotheses of `C03_end_to_end_metadata_loss` are satisfiable: the Metadata PDU of the 5-byte
+transfer in three tiles is lost -/
+example : True := by
+  have h := C03_end_to_end_metadata_loss envS envD s d0 req rcS rcD "/a" "/b" F [71, 11, 153, 244] 2 2 29
+    1 2 3 4 5 6 7
+    rfl rfl rfl rfl rfl rfl rfl rfl (by decide) rfl rfl rfl (by decide) (by decide) (by decide) rfl rfl
+    (by decide) (by decide +kernel) (by decide) rfl (by decide)
+    ⟨rfl, rfl, by decide, rfl⟩ (by decide) (by decide) rfl (by decide) (by decide)
     rfl rfl rfl rfl rfl (by decide) (Or.inl ⟨[9], rfl⟩)
   trivial
 
